@@ -199,12 +199,20 @@ def r3(ctx):
     ctx.sub(c01.r5)
 
 
-def _is_bare_hyper(ana, fi, e, taint) -> bool:
+def _is_bare_hyper(ana, fi, e, taint, _depth=0) -> bool:
     """The expression is the hyper-parameter value itself (a tainted name / attribute), not yet widened."""
     if isinstance(e, ast.Name):
         fl = Flow(ana, fi)
         p = fl.resolves_to_param(e)
-        return p is not None and p in taint.get(fi.qualname, set())
+        if p is not None and p in taint.get(fi.qualname, set()):
+            return True
+        try:
+            d = fl.sole_def(e.id, fl.at(e))
+        except Exception:
+            d = None
+        if d is not None and d.kind == "stmt" and isinstance(d.ast, ast.Assign) and d.ast.value is not e and _depth < 3:
+            return _is_bare_hyper(ana, fi, d.ast.value, taint, _depth + 1)      # a plain copy of the hyper-parameter
+        return False
     if isinstance(e, ast.Attribute) and e.attr in HYPER:
         return ana.res.type_of(fi, e.value)[0] == "cls"
     return False
@@ -253,6 +261,29 @@ def r4(ctx):
                         ctx.fail(fi, f"`{unparse(n)}` combines a raw hyper-parameter with an integer in scalar arithmetic: "
                                      "a narrow NumPy scalar (int8, float16) wraps or rounds where a Python float does not",
                                  line=n.lineno, role=f"narrow:binop:{unparse(a, 30)}", expected="float(x) * n", found=unparse(n))
+    # kind dispatch by exception: Python numbers raise TypeError when subscripted, NumPy scalars raise IndexError, so a handler for one
+    # of them separates equivalent scalar forms; a format specification accepts every real scalar but no array
+    for fi in ana.prog.functions.values():
+        if not taint.get(fi.qualname) and not any(isinstance(n, ast.Attribute) and n.attr in HYPER for n in Resolver.walk_own(fi.node)):
+            continue
+        for tr in [n for n in Resolver.walk_own(fi.node) if isinstance(n, ast.Try)]:
+            caught = {unparse(h.type) if h.type is not None else "BaseException" for h in tr.handlers}
+            if not caught & {"TypeError", "IndexError"}:
+                continue
+            for st in tr.body:
+                for n in ast.walk(st):
+                    if isinstance(n, ast.Subscript) and _is_bare_hyper(ana, fi, n.value, taint):
+                        seen += 1
+                        ctx.fail(fi, f"`{unparse(n)}` subscripts a raw hyper-parameter inside `try ... except {', '.join(sorted(caught))}`: scalars are told from arrays by the "
+                                     "exception they raise, and Python numbers (TypeError) and NumPy scalars (IndexError) raise different ones",
+                                 line=n.lineno, role=f"narrow:subscript:{unparse(n.value, 30)}", expected="numpy.ndim(x) == 0 decides the kind", found=unparse(tr, 80))
+        for n in Resolver.walk_own(fi.node):
+            if isinstance(n, ast.FormattedValue) and n.format_spec is not None and _is_bare_hyper(ana, fi, n.value, taint) \
+                    and any(isinstance(c_, ast.Constant) and str(c_.value).strip() for c_ in ast.walk(n.format_spec)):
+                seen += 1
+                ctx.fail(fi, f"a format specification is applied to the raw hyper-parameter `{unparse(n.value)}`: every real scalar accepts it, an array "
+                             "raises TypeError (ndarray.__format__), so the array form fails where the scalar form runs",
+                         line=n.lineno, role=f"narrow:format:{unparse(n.value, 30)}", expected="format without a numeric spec, or str(x)", found=unparse(n, 60))
     ok_sites = []
     for fi in ana.prog.functions.values():
         for n in Resolver.walk_own(fi.node):
